@@ -128,7 +128,7 @@ Next == UNCHANGED pos
 Emit == LET ms == Legal(pos) IN
         /\ (IF InsufficientMaterial(pos) /\ ms = {} /\ InCheck(pos.board, pos.stm)
             THEN PrintT(<<"DIAG", ToJson([prop |-> "ORACLE", l |-> 0, what |-> [kind |-> "checkmate with insufficient material: the rules specification is inconsistent", pos |-> ToFen(pos)]])>>) ELSE TRUE)
-        /\ PrintT(<<"GEN", ToJson([fen |-> ToFen(pos), chk |-> InCheck(pos.board, pos.stm),
+        /\ PrintT(<<"GEN", ToJson([fen |-> ToFen(pos), mfen |-> ToFen(Mirror(pos)), chk |-> InCheck(pos.board, pos.stm),
                                 st |-> IF ms # {} THEN "open" ELSE IF InCheck(pos.board, pos.stm) THEN "mate" ELSE "stalemate",
                                 imb |-> Imbalance(pos.board),
                                 mvs |-> SetToSeq({ [m |-> MvStr(m), nx |-> ToFen(Apply(pos, m))] : m \in ms })])>>)
